@@ -159,7 +159,11 @@ def op_readpyall(pol, enc, hdr, modi, d, comment, text, bytes_txt):
 
 
 def dec_cell(t):
-    return None if t == 'N' else dec_str(t)
+    if t == 'N':
+        return None
+    if t.startswith('L'):
+        return [] if t == 'L!' else [dec_cell(x) for x in t[1:].split('+')]
+    return dec_str(t)
 
 
 def dec_cell_table(t):
